@@ -108,24 +108,38 @@ fn scenario(n: usize) {
     std::mem::forget(rx);
 }
 
-//@ ob: C16.O2a
+//@ ob: C16.O2z
 //@ tier: thorough
 //@ cap: 1500
 //@ mem: 28
 //@ standins: tracing lru vcoll flume
-//@ desc: async twin: AsyncDht::get_mutable_most_recent returns None iff nothing was delivered (n = 0) and the single item for n = 1
-//@ bounds: n in {0, 1} delivered items (seq full i64, 1-byte value); future polled with a no-op waker (Ready at the first poll: all items queued, sender dropped); unwind 9
+//@ desc: async twin: AsyncDht::get_mutable_most_recent returns None when nothing was delivered (n = 0)
+//@ bounds: n = 0 delivered items; future polled with a no-op waker (Ready at the first poll: sender dropped); unwind 5
 //@ stubs: Dht::send -> harness-side actor double delivering the items then dropping the sender; MutableItem::target_from_key -> fixed id (SHA-1 not the subject)
 //@ functions: AsyncDht::get_mutable_most_recent, AsyncDht::get_mutable, GetStream::poll_next, flume stand-in RecvStream
 #[kani::proof]
 #[kani::stub(crate::dht::Dht::send, send_stub)]
 #[kani::stub(crate::common::mutable::MutableItem::target_from_key, tfk_stub)]
-#[kani::unwind(9)]
-fn c16_o2a_async_most_recent_n01() {
-    let n: usize = if kani::any() { 0 } else { 1 };
-    scenario(n);
-    kani::cover!(n == 0);
-    kani::cover!(n == 1);
+#[kani::unwind(5)]
+fn c16_o2z_async_most_recent_n0() {
+    scenario(0);
+}
+
+//@ ob: C16.O2a
+//@ tier: thorough
+//@ cap: 1500
+//@ mem: 28
+//@ standins: tracing lru vcoll flume
+//@ desc: async twin: AsyncDht::get_mutable_most_recent returns the single item delivered (n = 1), whatever its seq (including negative seqs and seq 0 with an empty-looking value)
+//@ bounds: n = 1 delivered item (seq full i64, 1-byte value); future polled with a no-op waker (Ready at the first poll: all items queued, sender dropped); unwind 5
+//@ stubs: as C16.O2z
+//@ functions: AsyncDht::get_mutable_most_recent, AsyncDht::get_mutable, GetStream::poll_next, flume stand-in RecvStream
+#[kani::proof]
+#[kani::stub(crate::dht::Dht::send, send_stub)]
+#[kani::stub(crate::common::mutable::MutableItem::target_from_key, tfk_stub)]
+#[kani::unwind(5)]
+fn c16_o2a_async_most_recent_n1() {
+    scenario(1);
 }
 
 //@ ob: C16.O2b
@@ -134,13 +148,13 @@ fn c16_o2a_async_most_recent_n01() {
 //@ mem: 28
 //@ standins: tracing lru vcoll flume
 //@ desc: async twin, two delivered items in either order (symbolic seqs and values): the result has the maximum seq, ties broken by the greatest value
-//@ bounds: n = 2; seq full i64, values 1 byte; unwind 9
-//@ stubs: as C16.O2a
+//@ bounds: n = 2; seq full i64, values 1 byte; unwind 5
+//@ stubs: as C16.O2z
 //@ functions: AsyncDht::get_mutable_most_recent
 #[kani::proof]
 #[kani::stub(crate::dht::Dht::send, send_stub)]
 #[kani::stub(crate::common::mutable::MutableItem::target_from_key, tfk_stub)]
-#[kani::unwind(9)]
+#[kani::unwind(5)]
 fn c16_o2b_async_most_recent_n2() {
     scenario(2);
 }
